@@ -1,7 +1,7 @@
 (* C01 — conversion is total and terminating.  PARTIAL (see DESIGN.md): the generic loop theorems and the
    facts about the regenerated patterns; per-handler progress and nesting bounds need the parser model. *)
 From Coq Require Import ZArith List Bool Lia Arith.
-From Verif Require Import PyStr Rx RxSpec RxAnalysis Loop LoopProofs UnicodeGen RxGen.
+From Verif Require Import PyStr Rx RxSpec RxAnalysis Loop LoopProofs UnicodeGen RxGen Inline InlineProofs InlineGen Entry.
 Import ListNotations.
 Local Open Scope nat_scope.
 
@@ -38,5 +38,51 @@ Theorem C01_all_rules_wf_and_nonnullable :
   forallb (fun e : str * rx => negb (is_rule_name (fst e)) || (wf (snd e) && negb (nullable (snd e)))) rx_table = true.
 Proof. vm_compute. reflexivity. Qed.
 
+(* ---- the inline parser (model Model/Inline.v, tied by skeletons + correspondence) ---- *)
+Theorem C01_tie_inline_skeletons : inline_skeletons_ok = true.
+Proof. reflexivity. Qed.
+
+(* the regenerated patterns satisfy what the termination proof needs: rule patterns and the helper patterns whose
+   matches move a cursor are well-formed and cannot match the empty string *)
+Lemma inline_cfg_ok : forall hw refs C, inline_cfg hw refs = Some C -> cfg_ok C.
+Proof.
+  intros hw refs C H. unfold inline_cfg in H. destruct (opt_all _) as [rules|]; [|discriminate]. inversion H; subst C; clear H.
+  constructor; cbn [c_spec c_square c_label c_bracket_start c_bracket c_href_inline c_title c_paren_end c_emph_end].
+  - intros r. destruct hw; destruct r; vm_compute; reflexivity.
+  - vm_compute; reflexivity.
+  - vm_compute; reflexivity.
+  - vm_compute; reflexivity.
+  - vm_compute; reflexivity.
+  - vm_compute; reflexivity.
+  - vm_compute; reflexivity.
+  - vm_compute; reflexivity.
+  - intros mk er He. unfold emph_end in He.
+    repeat (match type of He with (if ?b then _ else _) = _ => destruct b end; [inversion He; subst er; vm_compute; reflexivity|]).
+    discriminate.
+Qed.
+
+Example C01_inline_cfg_exists : forall hw refs, match inline_cfg hw refs with Some C => List.length (c_rules C) = (if hw then 8 else 9) | None => False end.
+Proof. intros hw refs. destruct hw; unfold inline_cfg; cbv beta; match goal with |- context [opt_all ?l] => let v := eval vm_compute in (opt_all l) in change (opt_all l) with v end; reflexivity. Qed.
+
+(* InlineParser.parse terminates for every text, both hard_wrap settings and every reference table *)
+Theorem C01_inline_parser_terminates : forall hw refs C s, inline_cfg hw refs = Some C -> inline_parse C s <> Fuel.
+Proof. intros hw refs C s H. apply inline_parse_terminates. exact (inline_cfg_ok hw refs C H). Qed.
+
+(* every handler that reports a position reports one at or beyond the end of the match that triggered it, so the
+   cursor of the scanner loop strictly increases *)
+Theorem C01_inline_cursor_advances : forall hw refs C fuel rk m src fl np toks fl' p, inline_cfg hw refs = Some C ->
+  handle C fuel rk m src fl = Ok (np, toks, fl') -> truthy np = Some p -> mend m <= p.
+Proof. intros hw refs C fuel rk m src fl np toks fl' p H. apply inline_step_advances. exact (inline_cfg_ok hw refs C H). Qed.
+
+Example C01_inline_example :
+  match inline_cfg false [] with
+  | Some C => inline_parse C [42; 97; 42; 32; 91; 98; 93; 40; 47; 117; 41]%Z =
+              Ok [TEmphasis [TText [97%Z]]; TText [32%Z]; TLink false [TText [98%Z]] [47; 117]%Z None false None]
+  | None => False
+  end.
+Proof. vm_compute. reflexivity. Qed.
+
 Print Assumptions C01_loop_terminates.
 Print Assumptions C01_nonnullable_rule_advances.
+Print Assumptions C01_inline_parser_terminates.
+Print Assumptions C01_inline_cursor_advances.
